@@ -339,6 +339,12 @@ static void wide_case(Ctx &c, const std::basic_string<Char> &x, const std::basic
 		if((r == Ref::npos) ? (got != size_t(-1)) : (got != r)) c.fail("find_first_of", strf("%s find_first_of from %zu", tname, from));
 		for(size_t n = 0; from + n <= x.size(); n++) { WView sv = vx.sub_string(from, n); if(sv.size() != n || sv.data() != px + from) { c.fail("sub_string", strf("%s sub_string(%zu,%zu)", tname, from, n)); break; } }
 	}
+	// equality between views of ONE buffer (same or overlapping storage, different lengths): v.sub_string(0, n) == v and the like
+	if(x.size() <= 12) for(size_t f1 = 0; f1 <= x.size() && !c.bad; f1++) for(size_t n1 = 0; f1 + n1 <= x.size() && !c.bad; n1++) for(size_t f2 = 0; f2 <= x.size() && !c.bad; f2++) for(size_t n2 = 0; f2 + n2 <= x.size(); n2++) {
+		WView a = vx.sub_string(f1, n1), b = vx.sub_string(f2, n2);
+		bool ref = x.compare(f1, n1, x, f2, n2) == 0;
+		if((a == b) != ref || (a != b) == ref) { c.fail("eq", strf("%s views [%zu,+%zu) and [%zu,+%zu) of one buffer: == is %d, reference %d", tname, f1, n1, f2, n2, (int)(a == b), (int)ref)); break; }
+	}
 	for(Char ch : {Char('a'), Char('b'), Char(0)}) { size_t r = x.rfind(ch); size_t got = vx.find_last(ch); if((r == Ref::npos) ? (got != size_t(-1)) : (got != r)) c.fail("find_last", strf("%s find_last", tname)); }
 	{ bool sw = x.size() >= y.size() && x.compare(0, y.size(), y) == 0, ew = x.size() >= y.size() && x.compare(x.size() - y.size(), y.size(), y) == 0;
 	  if(vx.starts_with(vy) != sw) c.fail("starts_with", strf("%s starts_with", tname)); if(vx.ends_with(vy) != ew) c.fail("ends_with", strf("%s ends_with", tname)); }
@@ -416,6 +422,7 @@ int main(int argc, char **argv) {
 	wide_sweep<wchar_t>("wchar_t");
 	wide_sweep<char16_t>("char16_t");
 	wide_sweep<unsigned char>("unsigned char");
+	wide_sweep<char>("char (second battery)");
 	wide_sweep<char, TrackedAllocR>("char, allocator with reallocate()"); // an allocator that offers the optional reallocate() member
 	wide_sweep<wchar_t, TrackedAllocR>("wchar_t, allocator with reallocate()");
 	if(want_mode("rand")) {
